@@ -28,6 +28,7 @@ static const char* names[] = {
     "adder moved while empty and while holding counts",
     "instance churn across threads: one thread destroys a used counter || another constructs, counts on and reads a new one",
     "enumerable thread local moved (assignment and construction) by a thread that has used both instances before: local() and for_each follow the storage",
+    "1025 live adders (two storage groups): an adder of the second group is move-assigned to one of the first; sums follow the move",
 };
 int harness_configs() { return sizeof(names) / sizeof(names[0]); }
 const char* harness_config_name(int c) { return names[c]; }
@@ -171,6 +172,25 @@ void harness_main(int cfg) {
       bbmc::check(first == 0, "a counter constructed while another one is being destroyed does not start from zero");
       bbmc::check(after == 2, "a counter constructed while another one is being destroyed lost (or gained) counts");
       bbmc::check(ssum == 3 && scount == 1, "a summer constructed while another one is being destroyed is not exact");
+      break;
+    }
+    case 12: {
+      // instances share storage in groups (one cache line slot each); start from a process that already has a full group
+      bbmc::quiet();
+      std::vector<std::unique_ptr<ConcurrentAdder>> many; for (int i = 0; i < 1024; i++) { many.emplace_back(new ConcurrentAdder); if (i % 64 == 0) bbmc::step(); }
+      std::unique_ptr<ConcurrentAdder> x(new ConcurrentAdder);   // first instance of the next group
+      bbmc::explore_begin();
+      run([&] { *x << 5; *many[3] << 7; *many[4] << 1000; });
+      *many[3] = std::move(*x);
+      bbmc::check(many[3]->value() == 5, "an adder move-assigned from another storage group does not report the counts that were moved into it");
+      bbmc::check(many[4]->value() == 1000, "moving an adder disturbed an unrelated adder");
+      run([&] { *many[3] << 1; *many[4] << 1; });
+      bbmc::check(many[3]->value() == 6 && many[4]->value() == 1001, "counting after a move across storage groups goes to the wrong adder");
+      x.reset();
+      bbmc::check(many[3]->value() == 6 && many[4]->value() == 1001, "destroying the moved-from adder disturbed live adders");
+      { ConcurrentAdder fresh; bbmc::check(fresh.value() == 0, "a new counter recycling the identity of a destroyed one does not start from zero"); }
+      bbmc::quiet();
+      many.clear();
       break;
     }
     case 11: {
